@@ -41,7 +41,7 @@ PARAMS = ("buRate", "axMesh")
 # core positions 1..7 of the specification -> (i, j) hex indices of the smallest reactor's full-core grid
 LOCS = [(0, 0), (1, 0), (0, 1), (-1, 1), (-1, 0), (0, -1), (1, -1)]
 NOBJ_MAX = 4
-HEAVY = ("hist", "hpos", "hsel", "hloc")  # observation fields that cost one history query each
+HEAVY = ("hist", "hpos", "hsel", "hloc", "htrk")  # observation fields that cost one history query each (htrk = hbv + hts)
 
 
 # ============================================================================================================
@@ -73,6 +73,7 @@ class DbAdapter:
         self.home = os.getcwd()
         self.nworld = 0
         self._dumps = {}
+        self.notes = []
 
     def rig_for_runs(self):
         """The operator runs use their own rig (their reactor keeps the single original assembly)."""
@@ -92,20 +93,26 @@ class DbAdapter:
     def token(self, p, x):
         """real value -> the specification's value: 0 for the parameter's default (None / the numeric default), k for k."""
         d = self.pdefs[p - 1].default
-        if x is None:
-            return 0 if d is None else {"unexpected-none": True}
-        if d is not None and x == d:
+        if x is None and d is None:
+            return 0
+        if x is not None and d is not None and x == d:
             return 0
         try:
             if float(x) == int(x) and int(x) >= 1:
                 return int(x)
         except (TypeError, ValueError):
             pass
-        return {"unexpected": repr(x)}
+        return self.odd("value of %s: %r" % (PARAMS[p - 1], x))
+
+    def odd(self, what):
+        """A real value the specification has no name for: reported as -1 (never a value of the specification; the kind of a
+        leaf stays comparable inside TLC) and described in the notes of the projection."""
+        self.notes.append(what)
+        return -1
 
     def loc_of(self, ijk):
         ij = (int(ijk[0]), int(ijk[1]))
-        return LOCS.index(ij) + 1 if ij in LOCS else {"unexpected-location": [int(x) for x in ijk]}
+        return LOCS.index(ij) + 1 if ij in LOCS else self.odd("location %r" % ([int(x) for x in ijk],))
 
     def locator(self, l):
         i, j = LOCS[l - 1]
@@ -134,8 +141,18 @@ class DbAdapter:
             for p in (1, 2):
                 self.blk[k].p[PARAMS[p - 1]] = self.real(p, 0)
         self.r.p.cycle, self.r.p.timeNode = root["now"]
+        self.r.p.time = self.time_of(*root["now"])
         w.nfile = 0
         w.Database = Database
+        # an operator whose stack holds the database interface (over the file being written) and the history tracker
+        from armi.bookkeeping.db.databaseInterface import DatabaseInterface
+        from armi.bookkeeping.historyTracker import HistoryTrackerInterface
+
+        w.o = self.rig.new_operator()
+        w.dbi = DatabaseInterface(self.r, self.cs)
+        w.tracker = HistoryTrackerInterface(self.r, self.cs)
+        w.o.addInterface(w.dbi)
+        w.o.addInterface(w.tracker)
         w.A = self._open(w)
         w.astate, w.bstate, w.bpath, w.apath = "open", "none", None, None
         w.err, w.res = "", {"kind": "none"}
@@ -146,12 +163,14 @@ class DbAdapter:
         db = w.Database("f%d.h5" % w.nfile, "w")
         db.open()
         db.writeInputsToDB(self.cs)
+        w.dbi._db = db
         return db
 
     def dispose(self, w):
         try:
             if w.A is not None and w.A.isOpen():
                 w.A.close(False)
+            w.o.removeAllInterfaces()
         finally:
             os.chdir(self.home)
             shutil.rmtree(w.dir, ignore_errors=True)
@@ -179,6 +198,7 @@ class DbAdapter:
             w.live.add(a["o"])
         elif n == "Advance":
             r.p.cycle, r.p.timeNode = a["c"], a["t"]
+            r.p.time = self.time_of(a["c"], a["t"])
         elif n == "Write":
             try:
                 w.A.writeToDB(r, a["l"] or None)
@@ -213,13 +233,15 @@ class DbAdapter:
         out = []
         for a in reactor.core:
             if len(a) != 1:
-                out.append({"unexpected-assembly": a.getName()})
+                out.append({"o": self.odd("assembly %s with %d blocks" % (a.getName(), len(a))), "loc": -1, "par": []})
                 continue
             b = a[0]
-            o = self.by_serial.get(int(b.p.serialNum), {"unknown-serial": int(b.p.serialNum)})
+            o = self.by_serial.get(int(b.p.serialNum))
+            if o is None:
+                o = self.odd("unknown block serial number %d" % int(b.p.serialNum))
             out.append({"o": o, "loc": self.loc_of(a.spatialLocator.getCompleteIndices()),
                         "par": [self.token(p, b.p[PARAMS[p - 1]]) for p in (1, 2)][: self.npar]})
-        return sorted(out, key=lambda d: json.dumps(d.get("o", 99)))
+        return sorted(out, key=lambda d: d["o"])
 
     npar = 2
 
@@ -238,6 +260,7 @@ class DbAdapter:
         """The observation of DbHistory!Obs; `want` (a set of field names) limits the expensive history queries to the ones
         that will be compared."""
         r = self.r
+        self.notes = []
         out = {"reactor": self.state_view(r), "now": [int(r.p.cycle), int(r.p.timeNode)], "astate": w.astate, "bstate": w.bstate}
         want = set(HEAVY) | {"dumpA", "dumpB"} if want is None else set(want)
         cols = [(PARAMS[p - 1], p) for p in range(1, self.npar + 1)]
@@ -246,9 +269,7 @@ class DbAdapter:
             db = w.A
             out["steps"] = [[int(c), int(n)] for c, n in db.genTimeSteps()]
             out["names"] = [self.parse_name(g) for g in db.keys()]
-            for c, n, lab in out["names"]:
-                if not db.hasTimeStep(c, n, lab):
-                    out["names"] = {"hasTimeStep-false-for-listed": [c, n, lab]}
+            out["has"] = [bool(db.hasTimeStep(c, n, lab)) for c, n, lab in out["names"]]
             blocks = [self.blk[k] for k in sorted(w.live)]
 
             def query(field, fn):
@@ -267,20 +288,60 @@ class DbAdapter:
                     return [{"o": row["o"], "h": row["h"][0]} for row in rows]
                 query("hpos", hpos)
             if "hsel" in want:
-                sel = [[c, n] for c, n, lab in reversed(out["names"]) if lab == ""] if isinstance(out["names"], list) else []
+                sel = [[c, n] for c, n, lab in reversed(out["names"]) if lab == ""]
                 out["sel"] = sel
                 query("hsel", lambda: self._hist_rows(w, db.getHistories(blocks, names, [tuple(x) for x in sel]), self.blk, cols,
                                                       self.token))
+            if "htrk" in want:
+                query("hbv", lambda: self.tracker_values(w, out["names"]))
+                query("hts", lambda: [self.step_of_time(t) for t in w.tracker.getTimeSteps()])
             if "hloc" in want:
                 query("hloc", lambda: self._hist_rows(w, db.getHistoriesByLocation(blocks, names), self.blk, cols, self.token))
         else:
-            out.update({"steps": [], "names": [], "hist": [], "hpos": [], "sel": [], "hsel": [], "hloc": []})
+            out.update({"steps": [], "names": [], "has": [], "hist": [], "hpos": [], "sel": [], "hsel": [], "hloc": [], "hbv": [],
+                        "hts": []})
         empty = {"ok": False, "names": [], "snaps": []}
         if "dumpA" in want:
             out["dumpA"] = self.dump(w.apath) if w.astate == "closed" else empty
         if "dumpB" in want:
             out["dumpB"] = self.dump(w.bpath) if w.bstate == "closed" else empty
+        if self.notes:
+            out["notes"] = list(self.notes)  # never compared (the specification has no such field); explains the -1 values
         return out
+
+    def tracker_values(self, w, names):
+        """HistoryTrackerInterface.getBlockHistoryVal for the steps DbHistory!TrackSteps names: the steps with an unlabelled
+        snapshot that holds the object, and the current step when the file lists nothing under it."""
+        r = self.r
+        now = (int(r.p.cycle), int(r.p.timeNode))
+        listed = {(c, n) for c, n, _ in names}
+        rows = []
+        for k in sorted(w.live):
+            b = self.blk[k]
+            steps = []
+            for c, n, lab in names:
+                if lab == "" and int(b.p.serialNum) in w.A.h5db["c%02dn%02d/layout/serialNum" % (c, n)][()]:
+                    steps.append((c, n))
+            if now not in listed:
+                steps.append(now)
+            cols = []
+            for p in range(1, self.npar + 1):
+                cols.append([[c, n, self.token(p, w.tracker.getBlockHistoryVal(b.getName(), PARAMS[p - 1], (c, n)))]
+                             for c, n in sorted(steps)])
+            rows.append({"o": k, "h": cols})
+        return rows
+
+    @staticmethod
+    def time_of(c, n):
+        """The reactor's time in years: an injective function of (cycle, node), the adapter's choice of data."""
+        return c + n / 128.0
+
+    def step_of_time(self, t):
+        c = int(t)
+        n = (float(t) - c) * 128.0
+        if abs(n - round(n)) > 1e-9:
+            return [self.odd("time %r" % (t,)), -1]
+        return [c, int(round(n))]
 
     @staticmethod
     def parse_name(g):
@@ -334,8 +395,7 @@ def covering_replay(graph, obs_of, ad, budget, rng, priority):
                         # one of the four history queries per checked edge (seeded rotation), everything else always
                         heavy = HEAVY[rng.randrange(len(HEAVY))]
                         want = {heavy} | ({"dumpA", "dumpB"} if s["act"]["n"] in ("Close", "Rotate", "Split", "Merge") or i == len(steps) - 1 else set())
-                        if heavy == "hsel":
-                            want.add("sel")
+                        want.add("has")
                         got = ad.project(w, want)
                         got["err"], got["res"] = w.err, w.res
                         exp = {k: v for k, v in exp.items() if k in got}
@@ -350,10 +410,12 @@ def covering_replay(graph, obs_of, ad, budget, rng, priority):
                     checked.add(id(s))
                     if s["_fk"] != s["_tk"]:
                         nontriv += 1
-                    d = rp.diff(exp, got)
-                    if d:
+                    # field by field, so that one differing query does not hide the others
+                    ds = [d for d in (rp.diff({k: exp[k]}, {k: got.get(k, "<missing>")}) for k in exp) if d]
+                    for d in ds:
                         divs.append({"diverged_at": i + 1, "root": root, "behaviour": [x["act"] for x in steps[: i + 1]],
                                      "action": s["act"], "first_difference": d, "expected": exp, "observed": got})
+                    if ds:
                         break
         finally:
             ad.dispose(w)
@@ -383,12 +445,17 @@ def emitted_graph(eres):
 DB_STEPS = ("Write", "Load", "Merge", "Split", "Rotate", "Close")
 
 
+RANK = {"Merge": 0, "Split": 0, "Load": 1, "Rotate": 1, "Write": 2, "Close": 3}
+
+
 def edge_priority(e):
-    """DB steps first, then reactor changes made while the file already holds snapshots, then the rest."""
+    """Rare database steps first (merge, split, then load / rotate, write, close), among them the ones starting from the files
+    with most snapshots; then reactor changes made while the file already holds snapshots; then the rest."""
     n = e["act"]["n"]
-    if n in DB_STEPS:
-        return 0
-    return 1 if e["from"]["A"]["snaps"] else 2
+    rich = len(e["from"]["A"]["snaps"]) + len(e["from"]["B"]["snaps"])
+    if n in RANK:
+        return (RANK[n], -rich)
+    return (4 if e["from"]["A"]["snaps"] else 5, -rich)
 
 
 def div_key(d):
@@ -496,11 +563,13 @@ def trace_driver(ad, ntraces, nev, seed):
                     continue
                 try:
                     ad.apply(w, a)
-                    heavy = set(rng.sample(HEAVY, 2))
-                    want = heavy | ({"sel"} if "hsel" in heavy else set())
+                    want = set(rng.sample(HEAVY, 2))
                     if a["n"] in ("Close", "Rotate", "Split", "Merge"):
                         want |= {"dumpA", "dumpB"}
                     post = ad.project(w, want)
+                    # getTimeSteps is compared in the replay direction only: it differs from the specification in most states
+                    # of the unchanged tree (see the report), which would end nearly every recorded history at its first event
+                    post.pop("hts", None)
                     ev.append({"a": a, "err": w.err, "res": w.res, "post": post})
                 except Exception as ex:  # noqa: BLE001  an escaping exception ends the history; TLC rejects the event
                     ev.append({"a": a, "err": "", "res": {"kind": "none"},
@@ -785,13 +854,15 @@ def _cached_run(module, cfg, moddir, **kw):
 def run(rep, tier, seed, parts=("db", "run")):
     thorough = tier == "thorough"
     sfx = _sfx(thorough)
-    for m, d in (("DbHistory_mc", DBDIR), ("DbHistory_trace", DBDIR), ("RunWithDb_mc", RUNDIR)):
-        tlc.sany(m, d)
+    if not _SELFTEST:
+        for m, d in (("DbHistory_mc", DBDIR), ("DbHistory_trace", DBDIR), ("RunWithDb_mc", RUNDIR)):
+            tlc.sany(m, d)
     rep.exhaustive = True
-    pool = ThreadPoolExecutor(max_workers=2)
+    pool = ThreadPoolExecutor(max_workers=3)
     # emission runs first (the real-code work waits for them), exhaustive runs in the background while the real code runs
     fut = {}
     fut["db_emit"] = pool.submit(_cached_run, "DbHistory_mc", "DbHistory_emit%s.cfg" % sfx, DBDIR, workers=1, coverage=False, timeout=3000)
+    fut["db_emit2"] = pool.submit(_cached_run, "DbHistory_mc", "DbHistory_emit2%s.cfg" % sfx, DBDIR, workers=1, coverage=False, timeout=3000)
     fut["run_emit"] = pool.submit(_cached_run, "RunWithDb_mc", "RunWithDb_emit%s.cfg" % sfx, RUNDIR, workers=1, coverage=False, timeout=3000)
     if not _SELFTEST:
         fut["db_mc"] = pool.submit(tlc.run, "DbHistory_mc", "DbHistory_mc%s.cfg" % sfx, DBDIR, want_prints=False, timeout=3000,
@@ -801,7 +872,7 @@ def run(rep, tier, seed, parts=("db", "run")):
     try:
         ad = DbAdapter()
         if "db" in parts:
-            _run_db(rep, thorough, seed, ad, fut["db_emit"])
+            _run_db(rep, thorough, seed, ad, (("wide", fut["db_emit"]), ("narrow", fut["db_emit2"])))
         if "run" in parts:
             run_faults(rep, thorough, seed, ad.rig_for_runs(), fut["run_emit"], (600, 150) if thorough else (30, 8))
         if not _SELFTEST:
@@ -832,28 +903,33 @@ def run(rep, tier, seed, parts=("db", "run")):
     )
 
 
-def _run_db(rep, thorough, seed, ad, fut_emit):
-    eres = fut_emit.result()
-    rep.add_tlc("edges:DbHistory_emit%s.cfg" % _sfx(thorough), eres)
-    _tlc_verdict(rep, eres, "DbHistory")
-    g, obs_of = emitted_graph(eres)
-    if not g.edges:
-        raise tlc.MachineryError("DbHistory emission printed no edge")
-    budget = 4000 if thorough else 150
-    n, nt, divs = covering_replay(g, obs_of, ad, budget, random.Random(seed), edge_priority)
-    if n == 0:
-        raise tlc.MachineryError("no DbHistory edge replayed")
-    rep.add_replay("database-edges", n, nt,
-                   "an edge (s,a,t) of TLC's state graph of DbHistory is executed as path(s);a on a real reactor + Database; after "
-                   "it the real listing, snapshot names, one of the four history queries (seeded rotation), the result of a load "
-                   "and, after close / rotate / merge / split, the complete contents of the closed files are compared with the "
-                   "values TLC printed for t; non-trivial = the edge changes the abstract state (%d of %d edges checked)" % (
-                       n, len(g.edges)))
-    for d in divs:
-        rep.violation(div_key(d), "real Database diverges from DbHistory after %s: %s" % (json.dumps(d["behaviour"]), d["first_difference"]),
-                      dict(d, direction="replay", part="db"))
-    e = next((x for x in g.edges if x["act"]["n"] == "Load"), g.edges[len(g.edges) // 2])
-    rep.sample({"kind": "edge", "path": [s["act"] for s in g.path[e["_fk"]]], "act": e["act"], "expected": obs_of(e)})
+def _run_db(rep, thorough, seed, ad, fut_emits):
+    # spec -> code: two emitted graphs -- "wide" (objects that move and appear, two parameters, depth 4/5) and "narrow" (one
+    # object, deeper sequences of database steps)
+    budgets = {"wide": 2200 if thorough else 110, "narrow": 1800 if thorough else 70}
+    for name, fut_emit in fut_emits:
+        eres = fut_emit.result()
+        rep.add_tlc("edges:%s:DbHistory_emit" % name, eres)
+        _tlc_verdict(rep, eres, "DbHistory")
+        g, obs_of = emitted_graph(eres)
+        if not g.edges:
+            raise tlc.MachineryError("DbHistory emission (%s) printed no edge" % name)
+        n, nt, divs = covering_replay(g, obs_of, ad, budgets[name], random.Random(seed), edge_priority)
+        if n == 0:
+            raise tlc.MachineryError("no DbHistory edge replayed (%s)" % name)
+        rep.add_replay("database-edges-" + name, n, nt,
+                       "an edge (s,a,t) of TLC's state graph of DbHistory is executed as path(s);a on a real reactor + Database; "
+                       "after it the real listing, snapshot names, hasTimeStep, one of the five history queries (seeded rotation: "
+                       "getHistories of blocks / of assembly locations / with explicit timeSteps, getHistoriesByLocation, the "
+                       "history tracker), the result of a load and, after close / rotate / merge / split, the complete contents of "
+                       "the closed files are compared with the values TLC printed for t; non-trivial = the edge changes the "
+                       "abstract state (%s graph: %d of %d edges checked, rare database steps first)" % (name, n, len(g.edges)))
+        for d in divs:
+            rep.violation(div_key(d), "real Database diverges from DbHistory after %s: %s" % (
+                json.dumps(d["behaviour"]), d["first_difference"]), dict(d, direction="replay", part="db"))
+        e = next((x for x in g.edges if x["act"]["n"] == ("Load" if name == "wide" else "Merge")), g.edges[len(g.edges) // 2])
+        rep.sample({"kind": "edge", "graph": name, "path": [s["act"] for s in g.path[e["_fk"]]], "act": e["act"],
+                    "expected": {k: v for k, v in (obs_of(e) or {}).items() if k in ("steps", "names", "hist", "res", "err")}})
 
     # code -> spec
     ntr, nev = (160, 30) if thorough else (10, 18)
